@@ -64,7 +64,7 @@ def make_source_mapper(env, ent):
         src = env.new_source()
         e = ent[j] if j < len(ent) else ("ok", None)
         if e[0] == "raise":
-            raise UserError(e[1])
+            raise k2.make_error(e[1])
         return src.observable
     return mapper
 
@@ -89,7 +89,7 @@ def make_subject_factory(env, ent, kind):
         calls[0] += 1
         e = ent[j] if j < len(ent) else ("ok", None)
         if e[0] == "raise":
-            raise UserError(e[1])
+            raise k2.make_error(e[1])
         return MySubject() if kind == "subclass" else Subject()
     return factory
 
@@ -121,7 +121,7 @@ def py_table(ent, kind):
     def f(v):
         e = ent[POOL.id(v)]
         if e[0] == "raise":
-            raise UserError(e[1])
+            raise k2.make_error(e[1])
         if kind == "pred":
             # same truthiness, not always a bool (user predicates like `lambda x: x % 2` or `re.match`)
             reps = PRED_REPS[sum(ent[j][1] is True for j in ent) % len(PRED_REPS)]
@@ -295,7 +295,7 @@ def gen_timeline(rng, nsrc, grid=(), maxlen=6, p_err=0.2, p_none=0.15, nonconfor
         tt = (times[-1] if times else rng.choice([0, 10, 20])) + rng.choice(steps + [30])
         r = rng.random()
         if r < p_err:
-            evs.append((tt, k, ("E", UserError(rng.choice([11, 12])))))
+            evs.append((tt, k, ("E", k2.make_error(rng.choice([11, 12])))))
         elif r < 1 - p_none:
             evs.append((tt, k, ("C",)))
         if rng.random() < nonconforming:
